@@ -44,7 +44,7 @@ Proof. intros H. unfold connect. simpl. destruct d; [apply D_cluster_shutdown|];
 Lemma cluster_shutdown_idem s : cl_down s = true -> cluster_shutdown s = s.
 Proof. intros H. unfold cluster_shutdown. rewrite H. reflexivity. Qed.
 
-Lemma connect_after_shutdown s d : cl_down s = true -> fst (connect s d) = set_nconn s (S (nconn s)).
+Lemma connect_after_shutdown s d : cl_down s = true -> fst (connect s d) = att (set_nconn s (S (nconn s))) 1.
 Proof. intros Hc. unfold connect. simpl. destruct d; auto. apply cluster_shutdown_idem. exact Hc. Qed.
 
 Opaque connect.
@@ -73,11 +73,12 @@ Proof.
       destruct o.
       * pose proof (D_connect s0 during H0) as H1. destruct (connect s0 during) as [s1 c]; simpl in *.
         destruct (pool s1 h) as [[[?|] [|]]|]; simpl; dflags.
-      * destruct (sess_down s0); dflags.
+      * cbn zeta. destruct (sess_down (att s0 1)); dflags.
     + destruct o.
       * pose proof (D_connect s0 during H0) as H1. destruct (connect s0 during) as [s1 c]; simpl in *.
         destruct (cc_down s1); [dflags|]. destruct (cc_conn s1); simpl; dflags.
-      * destruct (cc_down s0); [exact H0|]. destruct (sched_down s0); dflags.
+      * destruct during; [apply D_cluster_shutdown; dflags|].
+        destruct (cc_down s0); [dflags|]. cbn zeta. destruct (sched_down (att s0 (nh s0))); dflags.
   - destruct (sched_down s) eqn:Es; simpl; [dflags|].
     destruct (nth_error (timers s) k) as [t|]; simpl; [|dflags].
     assert (H0 : D (set_timers s (remove_nth k (timers s)))) by dflags.
@@ -85,11 +86,12 @@ Proof.
     destruct t; cbn [fire].
     + destruct live; cbn [negb]; [|exact H0]. destruct o.
       * pose proof (D_connect s0 during H0) as H1. destruct (connect s0 during) as [s1 c]; simpl in *. dflags.
-      * destruct (sched_down s0); dflags.
+      * cbn zeta. destruct (sched_down (att s0 1)); dflags.
     + destruct live; cbn [negb]; [|exact H0]. destruct o.
       * pose proof (D_connect s0 during H0) as H1. destruct (connect s0 during) as [s1 c]; simpl in *.
         destruct (cc_down s1); [dflags|]. destruct (cc_conn s1); simpl; dflags.
-      * destruct (sched_down s0); dflags.
+      * destruct during; [apply D_cluster_shutdown; dflags|].
+        cbn zeta. destruct (sched_down (att s0 (nh s0))); dflags.
   - apply D_cluster_shutdown; auto.
   - apply D_session_shutdown; auto.
   - exact H.
@@ -116,7 +118,7 @@ Proof.
   - left. destruct (nth_error (queue s) k) as [t|] eqn:Ek; simpl; [|repeat split; auto; discriminate].
     set (s0 := set_queue s (remove_nth k (queue s))).
     assert (Q0 : forall t, In t (queue s0) -> In t (queue s)) by (intros x Hx; eapply In_remove_nth; exact Hx).
-    assert (Hconn : forall d, fst (connect s0 d) = set_nconn s0 (S (nconn s0))).
+    assert (Hconn : forall d, fst (connect s0 d) = att (set_nconn s0 (S (nconn s0))) 1).
     { intros d. apply connect_after_shutdown. exact Hc. }
     destruct t; cbn [run_task].
     + destruct o; [|repeat split; auto; discriminate].
@@ -132,11 +134,42 @@ Proof.
     + destruct o.
       * pose proof (Hconn during) as E. destruct (connect s0 during) as [s1 c]; simpl in E; subst s1. simpl. rewrite Hcc.
         simpl. repeat split; auto; discriminate.
-      * simpl. rewrite Hcc. repeat split; auto; discriminate.
+      * destruct during.
+        -- rewrite (cluster_shutdown_idem (att s0 1) Hc). simpl. repeat split; auto; discriminate.
+        -- simpl. rewrite Hcc. simpl. repeat split; auto; discriminate.
   - left. rewrite (cluster_shutdown_idem s Hc). repeat split; auto; discriminate.
   - left. unfold session_shutdown. rewrite Hs. repeat split; auto; discriminate.
 Qed.
 
+
+(* after the shutdown a step starts at most ONE connection attempt (the one of a task that was already queued) *)
+Lemma one_late_attempt s o : cl_down s = true -> sess_down s = true -> cc_down s = true -> sched_down s = true ->
+  attempts (fst (step s o)) <= S (attempts s).
+Proof.
+  intros Hc Hs Hcc Hsc. destruct o; simpl; rewrite ?Hc, ?Hs, ?Hcc, ?Hsc; simpl; auto.
+  - destruct (pool_conn (pool s h)); simpl; auto.
+  - destruct (nth_error (queue s) k) as [t|] eqn:Ek; simpl; auto.
+    set (s0 := set_queue s (remove_nth k (queue s))).
+    assert (Hconn : forall d, fst (connect s0 d) = att (set_nconn s0 (S (nconn s0))) 1).
+    { intros d. apply connect_after_shutdown. exact Hc. }
+    destruct t; cbn [run_task].
+    + destruct o; auto. destruct (negb (h <? nh s0)); auto.
+      pose proof (Hconn during) as E. destruct (connect s0 during) as [s1 c]; simpl in E; subst s1. simpl. rewrite Hs.
+      simpl. lia.
+    + destruct (pool s0 h) as [[[c0'|] [|]]|]; auto. destruct (c0' =? c0); auto.
+      destruct o.
+      * pose proof (Hconn during) as E. destruct (connect s0 during) as [s1 c]; simpl in E; subst s1. simpl.
+        destruct (pool s h) as [[[?|] [|]]|]; simpl; try lia.
+      * simpl. rewrite Hs. simpl. lia.
+    + destruct o.
+      * pose proof (Hconn during) as E. destruct (connect s0 during) as [s1 c]; simpl in E; subst s1. simpl. rewrite Hcc.
+        simpl. lia.
+      * destruct during.
+        -- rewrite (cluster_shutdown_idem (att s0 1) Hc). simpl. lia.
+        -- simpl. rewrite Hcc. simpl. lia.
+  - rewrite (cluster_shutdown_idem s Hc). auto.
+  - unfold session_shutdown. rewrite Hs. auto.
+Qed.
 
 (* ---------------------------------------------------------------- KK: every opened connection is closed or has a holder *)
 Transparent connect.
@@ -332,14 +365,17 @@ Proof.
            apply KKn_install_pool; [repeat split; auto | |].
            ++ destruct (sess_down s1) eqn:Es; auto. specialize (C eq_refl h). rewrite Ep in C. discriminate.
            ++ destruct (Nat.lt_ge_cases h (nh s1)) as [|Hge]; auto. rewrite (D0 h Hge) in Ep. discriminate.
-      * destruct (sess_down s0); kkframe.
+      * cbn zeta. destruct (sess_down (att s0 1)); kkframe.
     + destruct o.
       * destruct (connect s0 during) as [s1 c] eqn:Ec.
         destruct (connect_spec _ _ _ _ H0 Ec) as (H1 & -> & Hn & Hh).
         destruct (cc_down s1) eqn:Ed.
         -- apply (KK_of _ (S (nconn s0))); [exact Hn | apply KKn_close_new; exact H1].
         -- apply (KK_of _ (S (nconn s0))); [simpl; rewrite nconn_close_opt; exact Hn | apply KKn_install_cc; auto].
-      * destruct (cc_down s0); [exact H0|]. destruct (sched_down s0); kkframe.
+      * destruct during.
+        -- assert (H1 : KK (att s0 1)) by kkframe.
+           apply (KK_of _ (nconn (att s0 1))); [apply nconn_cluster_shutdown | apply KKn_cluster_shutdown; exact H1].
+        -- destruct (cc_down s0); [kkframe|]. cbn zeta. destruct (sched_down (att s0 (nh s0))); kkframe.
   - destruct (sched_down s) eqn:Es; simpl; [kkframe|].
     destruct (nth_error (timers s) k) as [t|]; simpl; [|kkframe].
     assert (H0 : KK (set_timers s (remove_nth k (timers s)))) by kkframe.
@@ -349,7 +385,7 @@ Proof.
       * destruct (connect s0 during) as [s1 c] eqn:Ec.
         destruct (connect_spec _ _ _ _ H0 Ec) as (H1 & -> & Hn & Hh).
         apply (KK_of _ (S (nconn s0))); [exact Hn | apply KKn_close_new; exact H1].
-      * destruct (sched_down s0); kkframe.
+      * cbn zeta. destruct (sched_down (att s0 1)); kkframe.
     + destruct live; cbn [negb]; [|exact H0]. destruct o.
       * destruct (connect s0 during) as [s1 c] eqn:Ec.
         destruct (connect_spec _ _ _ _ H0 Ec) as (H1 & -> & Hn & Hh).
@@ -357,7 +393,10 @@ Proof.
         -- apply (KK_of _ (S (nconn s0))); [exact Hn | apply KKn_close_new; exact H1].
         -- apply (KK_of _ (S (nconn s0))); [simpl; rewrite nconn_close_opt; exact Hn |].
            apply KKn_close. apply KKn_install_cc; auto.
-      * destruct (sched_down s0); kkframe.
+      * destruct during.
+        -- assert (H1 : KK (att s0 1)) by kkframe.
+           apply (KK_of _ (nconn (att s0 1))); [apply nconn_cluster_shutdown | apply KKn_cluster_shutdown; exact H1].
+        -- cbn zeta. destruct (sched_down (att s0 (nh s0))); kkframe.
   - apply (KK_of _ (nconn s)); [apply nconn_cluster_shutdown | apply KKn_cluster_shutdown; exact H].
   - apply (KK_of _ (nconn s)); [apply nconn_session_shutdown | apply KKn_session_shutdown; exact H].
   - exact H.
